@@ -1,6 +1,7 @@
 package ledgersim
 
 import (
+	"github.com/ethereum/go-ethereum/common"
 	"bytes"
 	"encoding/hex"
 	"encoding/json"
@@ -54,8 +55,8 @@ func genC13(r *sim.Rand, tier string) *sim.Plan {
 		n = r.Range(10, 200)
 	}
 	// swarm: per-run op weights
-	ops := []string{"set", "add", "del", "get", "bal", "addbal", "nonce", "code", "getbal", "getnonce", "getcode", "query", "snap", "revert", "txend", "commit", "reopen", "flush"}
-	w := []int{12, 4, 5, 14, 3, 2, 2, 2, 3, 2, 3, 8, 4, 4, 4, 5, 2, 0}
+	ops := []string{"set", "add", "del", "get", "bal", "addbal", "nonce", "code", "getbal", "getnonce", "getcode", "query", "snap", "revert", "txend", "commit", "reopen", "evmcreate", "flush"}
+	w := []int{12, 4, 5, 14, 3, 2, 2, 2, 3, 2, 3, 8, 4, 4, 4, 5, 2, 2, 0}
 	if cfg.Pipeline {
 		w[len(w)-1] = 5
 	}
@@ -304,6 +305,15 @@ func execC13(p *sim.Plan, keep bool) *sim.Result {
 			}
 			dirtySinceCommit = true
 			res.Log.Logf("%d addbal A%d+=%d", i, s.A, s.N)
+		case "evmcreate":
+			// what the EVM does before it runs a constructor or moves value to an address it considers new
+			// (CREATE/CREATE2 at a funded address, a transfer to an account that has storage but no record): on an
+			// account that exists already it changes nothing, and a revert of the surrounding snapshot must not either
+			if c, ok := n.sl.(interface{ CreateEVMAccount(common.Address) }); ok {
+				c.CreateEVMAccount(common.BytesToAddress(ad.Bytes()))
+				res.Count("evm_account_creations")
+			}
+			res.Log.Logf("%d evmcreate A%d", i, s.A)
 		case "nonce":
 			n.sl.SetNonce(ad, s.N)
 			m.setNonce(s.A, s.N)
